@@ -12,7 +12,7 @@ RULE = ("one case = one simulated run: a program (per-thread op lists), per-run 
 def J(name, wl, quick, thorough, **params):
     d = {"name": name, "wl": wl, "quick": quick, "thorough": thorough, "params": {}}
     for k, v in params.items():
-        if k in ("limits", "time_ms"):
+        if k in ("limits", "time_ms", "fork_each"):
             d[k] = v
         else:
             d["params"][k] = v
@@ -55,6 +55,8 @@ PROPS = {
                      J("lr.overlap", "wl_lr", 20000, 500000, mode="overlap"),
                      J("rcu.freeze", "wl_rcu", 60000, 1500000, mode="freeze", elem=0),
                      J("cow.freeze", "wl_cow", 60000, 1500000, mode="freeze")]},
+    "C19": {"jobs": [J("trip.explicit", "wl_trip", 200000, 5000000, mode="explicit"),
+                     J("trip.static", "wl_trip", 6000, 150000, mode="static", fork_each=1)]},
 }
 
 
